@@ -210,6 +210,35 @@ class TypeEnv:
                     self._scan(h.body)
                 self._scan(st.orelse)
                 self._scan(st.finalbody)
+            elif isinstance(st, ast.Match):
+                for c in st.cases:
+                    self._bind_pattern(c.pattern, st.subject)
+                    self._scan(c.body)
+
+    def _bind_pattern(self, pat: ast.pattern, subject: Optional[ast.expr]):
+        """names captured by a ``case`` pattern take the type of the matched part of the subject"""
+        if isinstance(pat, ast.MatchAs):
+            if pat.pattern is not None:
+                self._bind_pattern(pat.pattern, subject)
+            if pat.name and subject is not None:
+                t = self.type_of(subject)
+                if t is not None:
+                    self.env[pat.name] = t
+        elif isinstance(pat, ast.MatchSequence) and isinstance(subject, (ast.Tuple, ast.List)) and len(subject.elts) == len(pat.patterns):
+            for p2, e in zip(pat.patterns, subject.elts):
+                self._bind_pattern(p2, e)
+        elif isinstance(pat, ast.MatchOr):
+            for p2 in pat.patterns:
+                self._bind_pattern(p2, subject)
+        elif isinstance(pat, ast.MatchClass):
+            t = self.res.ann(pat.cls, self.module)
+            if isinstance(subject, ast.Name) and t is not None and t.cls is not None:
+                cur = self.env.get(subject.id)
+                if cur is None or cur.cls is None or t.cls.is_subclass_of(cur.cls):
+                    self.env[subject.id] = t
+            for attr, p2 in zip(pat.kwd_attrs, pat.kwd_patterns):
+                if subject is not None:
+                    self._bind_pattern(p2, ast.Attribute(value=subject, attr=attr, ctx=ast.Load()))
 
     def _narrow(self, test: ast.expr):
         """isinstance(x, T) narrows x inside the branch (applied function-wide: good enough for dispatch)."""
